@@ -6,6 +6,7 @@
 #define MYTH_MEM_BARRIER_FUNC_H_
 
 #include "myth_config.h"
+#include "myth_verif.h"
 
 //A macro for supressing optimization
 static inline void myth_loop_barrier() {
@@ -44,6 +45,7 @@ static inline void myth_wbarrier() {
 //rbarrier+wbarrier
 static inline void myth_rwbarrier() {
   myth_rbarrier();
+  MYTH_VERIF_EV(FENCE_RW, 0, 0);
 }
 
 #elif MYTH_BARRIER == MYTH_BARRIER_CILK_WEAK
